@@ -435,6 +435,7 @@ func (p *Path) unop(instr *ssa.UnOp, x Value) Value {
 		if ptr == nil {
 			p.targetPanicStr("runtime error: invalid memory address or nil pointer dereference")
 		}
+		p.raceRead(ptr, instr.Pos())
 		return copyVal(*ptr)
 	case token.SUB:
 		switch x := x.(type) {
